@@ -12,6 +12,8 @@ use std::net::{Ipv4Addr, Ipv6Addr};
 
 mod oracle;
 use oracle::*;
+mod props;
+use props::*;
 
 fn hex(b: &[u8]) -> String { b.iter().map(|x| format!("{:02x}", x)).collect() }
 fn unhex(s: &str) -> Vec<u8> { (0..s.len() / 2).map(|i| u8::from_str_radix(&s[2 * i..2 * i + 2], 16).unwrap()).collect() }
@@ -93,6 +95,7 @@ fn show_v1_addr(a: &v1::Addresses) -> String { format!("{:?}", a) }
 /// compares the byte entry point (and, for valid UTF-8, the text entry points) with the oracle
 /// lvl 0: acceptance and decoded result only; 1: + the incomplete / complete classification; 2: + the exact error kind
 fn check_v1(input: &[u8]) -> Option<Mismatch> { check_v1_lvl(input, 2) }
+fn check_v1_lvl(input: &[u8], lvl: u8) -> Option<Mismatch> { check_v1_parts(input, lvl, true) }
 fn v1_same(a: &V1Out, b: &V1Out, lvl: u8) -> bool {
     match (a, b) {
         (V1Out::Accept(x, y), V1Out::Accept(p, q)) => x == p && y == q,
@@ -103,7 +106,8 @@ fn v1_same(a: &V1Out, b: &V1Out, lvl: u8) -> bool {
         (V1Out::InvalidUtf8, V1Out::Reject(k)) | (V1Out::Reject(k), V1Out::InvalidUtf8) => lvl < 2 && !v1_incomplete_kind(k),
     }
 }
-fn check_v1_lvl(input: &[u8], lvl: u8) -> Option<Mismatch> {
+/// `views`: also the accessor re-assembly (C15) and the agreement of the FromStr entry points (C16)
+fn check_v1_parts(input: &[u8], lvl: u8, views: bool) -> Option<Mismatch> {
     let want = oracle_v1_bytes(input);
     let got = std::panic::catch_unwind(|| v1::Header::try_from(input));
     let got = match got { Ok(g) => g, Err(_) => return Some(Mismatch { case: hex(input), expected: format!("{:?}", want), actual: "PANIC in v1::Header::try_from(&[u8])".into() }) };
@@ -119,7 +123,7 @@ fn check_v1_lvl(input: &[u8], lvl: u8) -> Option<Mismatch> {
     if lvl >= 1 && (got.is_incomplete() != inc_want || got.is_complete() == inc_want) {
         return Some(Mismatch { case: hex(input), expected: format!("is_incomplete == {}", inc_want), actual: format!("is_incomplete == {}", got.is_incomplete()) });
     }
-    if let Ok(h) = &got {
+    if let (Ok(h), true) = (&got, views) {
         // accessors must not panic and must reassemble the text (C03, C15)
         let r = std::panic::catch_unwind(|| (h.protocol().to_string(), h.addresses_str().to_string(), h.to_string(), h.to_owned()));
         match r {
@@ -150,7 +154,7 @@ fn check_v1_lvl(input: &[u8], lvl: u8) -> Option<Mismatch> {
         }
         let fa = text.parse::<v1::Addresses>();
         let fh = text.parse::<v1::Header<'static>>();
-        let same = match (&got_s, &fa, &fh) {
+        let same = !views || match (&got_s, &fa, &fh) {
             (Ok(h), Ok(a), Ok(h2)) => h.addresses == *a && *h == *h2,
             (Err(e), Err(e1), Err(e2)) => lvl < 2 || (e == e1 && e == e2),
             _ => false,
@@ -194,8 +198,9 @@ fn v2_cases() -> Vec<Vec<u8>> {
 }
 
 fn check_v2(input: &[u8]) -> Option<Mismatch> { check_v2_lvl(input, 2) }
+fn check_v2_lvl(input: &[u8], lvl: u8) -> Option<Mismatch> { check_v2_parts(input, lvl, true) }
 /// lvl 0: acceptance, decoded result and views; 1: + incomplete classification and the counts it carries (C17); 2: + the exact terminal error
-fn check_v2_lvl(input: &[u8], lvl: u8) -> Option<Mismatch> {
+fn check_v2_parts(input: &[u8], lvl: u8, views: bool) -> Option<Mismatch> {
     let want = oracle_v2(input);
     let got = match std::panic::catch_unwind(|| v2::Header::try_from(input)) { Ok(g) => g, Err(_) => return Some(Mismatch { case: hex(input), expected: format!("{:?}", want), actual: "PANIC in v2::Header::try_from".into() }) };
     let actual = match &got {
@@ -220,7 +225,7 @@ fn check_v2_lvl(input: &[u8], lvl: u8) -> Option<Mismatch> {
             }
         }
     }
-    if let Ok(h) = &got {
+    if let (Ok(h), true) = (&got, views) {
         let r = std::panic::catch_unwind(|| {
             let fam = fam_size(input[13] & 0xF0);
             let end = if input[13] & 0xF0 == 0 { h.header.len() } else { 16 + fam };
@@ -320,7 +325,21 @@ fn builder_histories() -> Vec<(bool, Vec<Op>)> {
     out
 }
 
-fn check_builder(with_addr: bool, ops: &[Op]) -> Option<Mismatch> {
+/// every property looks at ITS aspect of a builder history only:
+///   bytes (C07 C10 C13): a build that succeeds returns the model's bytes;  len (C09): the length field of a successful build,
+///   and the operations that must be refused;  succeeds (C07 C13): what the model accepts must not be refused.
+/// Where the real code and the model part ways on an aspect the property does not pin (e.g. where the writer's size
+/// limit lies), the history simply ends.
+fn check_builder(with_addr: bool, ops: &[Op], prop: &str) -> Option<Mismatch> {
+    let bytes_aspect = ["C07", "C10", "C13", "any"].contains(&prop);
+    let len_aspect = ["C09", "any"].contains(&prop);
+    let succeeds_aspect = ["C07", "C13", "any"].contains(&prop);
+    // real_ok: what the real code did; enc_ok: the value is encodable (<= 65535 bytes) - otherwise it MUST be refused
+    let dv = |real_ok: bool, enc_ok: bool, what: String| -> Result<Option<(String, String)>, String> {
+        if real_ok && !enc_ok && len_aspect { return Err(what + " (a value too large for its 16-bit length was accepted)"); }
+        if !real_ok && succeeds_aspect { return Err(what); }
+        Ok(None)
+    };
     let addr = v2::Addresses::IPv4(v2::IPv4::new([1, 2, 3, 4], [5, 6, 7, 8], 80, 443));
     let case = format!("with_addresses={} ops={:?}", with_addr, ops);
     let r = std::panic::catch_unwind(|| {
@@ -331,36 +350,47 @@ fn check_builder(with_addr: bool, ops: &[Op]) -> Option<Mismatch> {
             let res: std::io::Result<v2::Builder> = match op {
                 Op::Reserve(n) => { Ok(b.reserve_capacity(*n)) }
                 Op::SetLen(l) => { model.length = *l; Ok(b.set_length(*l)) }
-                Op::Bytes(n) => { let d = data(*n); let ok = model.write(if *n <= 65535 { Some(vec![d.clone()]) } else { None }); let r = b.write_payload(d.as_slice()); if r.is_ok() != ok { return Err(format!("write_payload([u8;{}]) ok={} expected ok={}", n, r.is_ok(), ok)); } r }
-                Op::U8(x) => { let ok = model.write(Some(vec![vec![*x]])); let r = b.write_payload(*x); if r.is_ok() != ok { return Err("u8".into()); } r }
-                Op::U16(x) => { let ok = model.write(Some(vec![x.to_be_bytes().to_vec()])); let r = b.write_payload(*x); if r.is_ok() != ok { return Err("u16".into()); } r }
-                Op::I32(x) => { let ok = model.write(Some(vec![x.to_be_bytes().to_vec()])); let r = b.write_payload(*x); if r.is_ok() != ok { return Err("i32".into()); } r }
-                Op::U64(x) => { let ok = model.write(Some(vec![x.to_be_bytes().to_vec()])); let r = b.write_payload(*x); if r.is_ok() != ok { return Err("u64".into()); } r }
-                Op::Tlv(k, n) => { let d = data(*n); let ok = model.write(tlv_chunks(*k, &d)); let r = b.write_tlv(*k, d.as_slice()); if r.is_ok() != ok { return Err(format!("write_tlv({}) ok={} expected {}", n, r.is_ok(), ok)); } r }
-                Op::Pair(k, n) => { let d = data(*n); let ok = model.write(tlv_chunks(*k, &d)); let r = b.write_payload((*k, d.as_slice())); if r.is_ok() != ok { return Err(format!("write_payload((kind, [u8;{}])) ok={} expected {}", n, r.is_ok(), ok)); } r }
-                Op::TypeSsl => { let ok = model.write(Some(vec![vec![0x20]])); let r = b.write_payload(v2::Type::SSL); if r.is_ok() != ok { return Err(format!("write_payload(Type::SSL) ok={} expected {}", r.is_ok(), ok)); } r }
+                Op::Bytes(n) => { let d = data(*n); let ok = model.write(if *n <= 65535 { Some(vec![d.clone()]) } else { None }); let r = b.write_payload(d.as_slice()); if r.is_ok() != ok { return dv(r.is_ok(), *n <= 65535, format!("write_payload([u8;{}]) ok={} expected ok={}", n, r.is_ok(), ok)); } r }
+                Op::U8(x) => { let ok = model.write(Some(vec![vec![*x]])); let r = b.write_payload(*x); if r.is_ok() != ok { return dv(r.is_ok(), true, "write_payload(u8)".into()); } r }
+                Op::U16(x) => { let ok = model.write(Some(vec![x.to_be_bytes().to_vec()])); let r = b.write_payload(*x); if r.is_ok() != ok { return dv(r.is_ok(), true, "write_payload(u16)".into()); } r }
+                Op::I32(x) => { let ok = model.write(Some(vec![x.to_be_bytes().to_vec()])); let r = b.write_payload(*x); if r.is_ok() != ok { return dv(r.is_ok(), true, "write_payload(i32)".into()); } r }
+                Op::U64(x) => { let ok = model.write(Some(vec![x.to_be_bytes().to_vec()])); let r = b.write_payload(*x); if r.is_ok() != ok { return dv(r.is_ok(), true, "write_payload(u64)".into()); } r }
+                Op::Tlv(k, n) => { let d = data(*n); let ok = model.write(tlv_chunks(*k, &d)); let r = b.write_tlv(*k, d.as_slice()); if r.is_ok() != ok { return dv(r.is_ok(), *n <= 65535, format!("write_tlv({}) ok={} expected {}", n, r.is_ok(), ok)); } r }
+                Op::Pair(k, n) => { let d = data(*n); let ok = model.write(tlv_chunks(*k, &d)); let r = b.write_payload((*k, d.as_slice())); if r.is_ok() != ok { return dv(r.is_ok(), *n <= 65535, format!("write_payload((kind, [u8;{}])) ok={} expected {}", n, r.is_ok(), ok)); } r }
+                Op::TypeSsl => { let ok = model.write(Some(vec![vec![0x20]])); let r = b.write_payload(v2::Type::SSL); if r.is_ok() != ok { return dv(r.is_ok(), true, format!("write_payload(Type::SSL) ok={} expected {}", r.is_ok(), ok)); } r }
                 Op::Batch(ns) => { let ds: Vec<Vec<u8>> = ns.iter().map(|n| data(*n)).collect(); let mut ok = model.start(); for d in &ds { ok = ok && model.write_started(Some(vec![d.clone()])); if !ok { break; } }
-                    let r = b.write_payloads(ds.iter().map(|d| d.as_slice())); if r.is_ok() != ok { return Err("write_payloads".into()); } r }
-                Op::Section(n) => { let d = data(*n); let ok = model.write(Some(vec![d.clone()])); let r = b.write_payload(v2::TypeLengthValues::from(d.as_slice())); if r.is_ok() != ok { return Err("tlv section".into()); } r }
-                Op::Addr4 => { let ok = model.write(Some(vec![vec![1, 2, 3, 4], vec![5, 6, 7, 8], vec![0, 80], vec![1, 187]])); let r = b.write_payload(addr); if r.is_ok() != ok { return Err("addresses payload".into()); } r }
+                    let r = b.write_payloads(ds.iter().map(|d| d.as_slice())); if r.is_ok() != ok { return dv(r.is_ok(), true, "write_payloads".into()); } r }
+                Op::Section(n) => { let d = data(*n); let ok = model.write(Some(vec![d.clone()])); let r = b.write_payload(v2::TypeLengthValues::from(d.as_slice())); if r.is_ok() != ok { return dv(r.is_ok(), true, "write_payload(TLV section)".into()); } r }
+                Op::Addr4 => { let ok = model.write(Some(vec![vec![1, 2, 3, 4], vec![5, 6, 7, 8], vec![0, 80], vec![1, 187]])); let r = b.write_payload(addr); if r.is_ok() != ok { return dv(r.is_ok(), true, "write_payload(addresses)".into()); } r }
             };
             match res { Ok(nb) => b = nb, Err(_) => return Ok(None) }   // a failed write ends the history (agreed with the model above)
         }
+        let explicit = model.length;
         let want = model.build();
         let got = b.build();
         match (want, got) {
             (None, Err(_)) => Ok(None),
-            (Some(w), Ok(g)) => if w == g { Ok(None) } else {
-                let a = format!("len={} head={}", w.len(), hex(&w[..w.len().min(40)]));
-                let b2 = format!("len={} head={}", g.len(), hex(&g[..g.len().min(40)]));
-                Ok(Some((a, b2)))
+            (Some(w), Ok(g)) => {
+                if len_aspect {
+                    // C09: the explicit length in force, otherwise the ACTUAL number of bytes after the fixed part
+                    let field = if g.len() >= 16 { Some((g[14] as usize) * 256 + g[15] as usize) } else { None };
+                    let wantf = explicit.map(|l| l as usize).unwrap_or(g.len().wrapping_sub(16));
+                    if field != Some(wantf) { return Ok(Some((format!("length field {}", wantf), format!("length field {:?} (built {} bytes)", field, g.len())))); }
+                }
+                if bytes_aspect && w != g {
+                    let a = format!("len={} head={}", w.len(), hex(&w[..w.len().min(40)]));
+                    let b2 = format!("len={} head={}", g.len(), hex(&g[..g.len().min(40)]));
+                    return Ok(Some((a, b2)));
+                }
+                Ok(None)
             },
-            (w, g) => Ok(Some((format!("build ok={}", w.is_some()), format!("build ok={}", g.is_ok())))),
+            (None, Ok(g)) => if len_aspect { Ok(Some(("build fails: more than 65535 bytes follow the fixed part and no explicit length is in force".into(), format!("build ok, {} bytes", g.len())))) } else { Ok(None) },
+            (Some(_), Err(e)) => if succeeds_aspect { Ok(Some(("build ok".into(), format!("build failed: {:?}", e.kind())))) } else { Ok(None) },
         }
     });
     match r {
         Err(_) => Some(Mismatch { case, expected: "no panic".into(), actual: "PANIC in the builder".into() }),
-        Ok(Err(m)) => Some(Mismatch { case, expected: "write succeeds exactly when the model says".into(), actual: m }),
+        Ok(Err(m)) => Some(Mismatch { case, expected: "an encodable payload below the size limit is accepted, a value too large for its length is refused".into(), actual: m }),
         Ok(Ok(Some((w, g)))) => Some(Mismatch { case, expected: w, actual: g }),
         Ok(Ok(None)) => None,
     }
@@ -432,14 +462,15 @@ fn check_format() -> Option<Mismatch> {
     }
     for a in vals {
         let s = a.to_string();
-        let want = match a {
-            v1::Addresses::Unknown => "PROXY UNKNOWN\r\n".to_string(),
-            v1::Addresses::Tcp4(x) => format!("PROXY TCP4 {} {} {} {}\r\n", x.source_address, x.destination_address, x.source_port, x.destination_port),
-            v1::Addresses::Tcp6(x) => format!("PROXY TCP6 {} {} {} {}\r\n", x.source_address, x.destination_address, x.source_port, x.destination_port),
-        };
+        // C08: a well-formed v1 line (the grammar of C01) of at most 107 bytes that every text entry point parses back to the value
+        let wf = matches!(oracle_v1_str(&s), V1Out::Accept(ref shown, ref line) if *shown == show_v1_addr(&a) && line == s.as_bytes());
         let back = s.parse::<v1::Addresses>();
-        if s != want || s.len() > 107 || back != Ok(a) {
-            return Some(Mismatch { case: format!("{:?}", a), expected: format!("{:?} and parses back", want), actual: format!("{:?} -> {:?}", s, back) });
+        let via_header = v1::Header::try_from(s.as_str()).map(|h| h.addresses);
+        let via_fromstr = s.parse::<v1::Header<'static>>().map(|h| h.addresses);
+        let via_bytes = v1::Header::try_from(s.as_bytes()).map(|h| h.addresses);
+        if !wf || s.len() > 107 || back != Ok(a) || via_header != Ok(a) || via_fromstr != Ok(a) || via_bytes.as_ref().ok() != Some(&a) {
+            return Some(Mismatch { case: format!("{:?}", a), expected: "a well-formed line of at most 107 bytes that parses back to the value through every entry point".into(),
+                                   actual: format!("{:?} (well-formed: {}) -> FromStr<Addresses> {:?}, try_from(&str) {:?}, FromStr<Header> {:?}, try_from(&[u8]) {:?}", s, wf, back, via_header, via_fromstr, via_bytes) });
         }
     }
     None
@@ -579,37 +610,64 @@ fn check_auto_abs(input: &[u8]) -> Option<Mismatch> {
     if ok { None } else { Some(Mismatch { case: hex(input), expected: "auto-detect: an incomplete V2 result (the buffer is still a possible v2 header)".into(), actual: format!("{:?}", got) }) }
 }
 
+/// the per-input checks of a property (each at the property's OWN strength: what the statement pins, nothing more)
+///   C01 / C02: acceptance and decoded result against the grammar (executable transcription of the specification)
+///   C04 C05 C08 C13 C14 C15 C16 C17 C18: relational - the real code against itself (props.rs)
+///   C06: the auto-detecting parser against the two real parsers; C11: the standard TLV walk; C12: single-corruption cases
+fn per_input(prop: &str) -> Vec<(&'static str, fn(&[u8]) -> Option<Mismatch>)> {
+    fn v1_accept(c: &[u8]) -> Option<Mismatch> { check_v1_parts(c, 0, false) }
+    fn v2_accept(c: &[u8]) -> Option<Mismatch> { check_v2_parts(c, 0, false) }
+    fn v1_all(c: &[u8]) -> Option<Mismatch> { check_v1_parts(c, 2, true) }
+    fn v2_all(c: &[u8]) -> Option<Mismatch> { check_v2_parts(c, 2, true) }
+    fn auto_both(c: &[u8]) -> Option<Mismatch> { check_auto(c).or_else(|| check_auto_abs(c)) }
+    match prop {
+        "C01" => vec![("v1", v1_accept)],
+        "C02" => vec![("v2", v2_accept)],
+        "C03" => vec![("v1", v1_all), ("v2", v2_all), ("both", check_auto), ("both", meta_c04), ("both", meta_c05), ("v2", meta_c13), ("v2", meta_c14), ("v1", meta_c15), ("v2", meta_c16_v2), ("tlv", check_tlv)],
+        "C04" => vec![("both", meta_c04)],
+        "C05" => vec![("both", meta_c05)],
+        "C06" => vec![("both", auto_both)],
+        "C08" => vec![("v1", meta_c08)],
+        "C11" => vec![("tlv", check_tlv)],
+        "C13" => vec![("v2", meta_c13)],
+        "C14" => vec![("v2", meta_c14)],
+        "C15" => vec![("v1", meta_c15)],
+        "C16" => vec![("v1", meta_c16_v1_owned), ("v2", meta_c16_v2)],
+        "C17" => vec![("v2", meta_c17)],
+        "C18" => vec![("v1", meta_c18)],
+        _ => vec![],
+    }
+}
+
 fn run(prop: &str, one: Option<&str>) -> (Option<Mismatch>, usize) {
-    // every property is compared at ITS OWN strength: what the statement pins, nothing more
-    //   v1 level: C01 C04 C08 C15 -> acceptance + decoded result (+ views / formatting); C05 C18 -> + incomplete classification
-    //   v2 level: C02 C04 C13 C14 -> acceptance + decode + views; C05 -> + classification; C17 -> + the counts of incomplete results
-    //   C12 -> single-corruption cases with their exact blame; C16 -> the entry points against each other; C06 -> relative
-    let v1_lvl = |p: &str| -> Option<u8> { match p { "C01" | "C04" | "C08" | "C15" | "C03" => Some(0), "C05" | "C18" => Some(1), _ => None } };
-    let v2_lvl = |p: &str| -> Option<u8> { match p { "C02" | "C04" | "C13" | "C14" | "C03" => Some(0), "C05" | "C17" => Some(1), _ => None } };
     let mut n = 0usize;
     // C03 is about panics and the TLV item bound only: other disagreements are not its business
     let relevant = |m: &Mismatch| prop != "C03" || m.actual.starts_with("PANIC") || m.expected.contains("items, standard walk");
-    macro_rules! sweep { ($cases:expr, $f:expr) => { for c in $cases { n += 1; if let Some(m) = $f(&c) { if relevant(&m) { return (Some(m), n); } } } } }
+    let checks = per_input(prop);
     if let Some(h) = one {
         let c = unhex(h);
-        let m = match prop {
-            "C11" => check_tlv(&c),
-            "C06" => check_auto(&c).or_else(|| check_auto_abs(&c)),
-            "C12" | "C16" => check_v1_lvl(&c, 2).or_else(|| check_v2_lvl(&c, 2)),
-            _ => v1_lvl(prop).and_then(|l| check_v1_lvl(&c, l)).or_else(|| v2_lvl(prop).and_then(|l| check_v2_lvl(&c, l))).or_else(|| if ["C04", "C05", "C06"].contains(&prop) { check_auto(&c) } else { None }),
-        };
-        return (m.filter(|m| relevant(m)), 1);
+        for (_, f) in &checks { if let Some(m) = f(&c) { if relevant(&m) { return (Some(m), 1); } } }
+        if prop == "C12" || prop == "C16" { return (check_v1_lvl(&c, 2).or_else(|| check_v2_lvl(&c, 2)), 1); }
+        return (None, 1);
     }
-    if prop == "C12" { return check_c12_domain(); }
-    if prop == "C16" { return check_c16_domain(); }
-    if let Some(l) = v1_lvl(prop) { sweep!(v1_cases(), |c: &Vec<u8>| check_v1_lvl(c, l)); }
-    if let Some(l) = v2_lvl(prop) { sweep!(v2_cases(), |c: &Vec<u8>| check_v2_lvl(c, l)); }
-    if prop == "C06" || prop == "C04" || prop == "C05" { sweep!(v1_cases().into_iter().chain(v2_cases()).collect::<Vec<_>>(), |c: &Vec<u8>| check_auto(c)); }
-    if prop == "C06" { sweep!(v2_cases(), |c: &Vec<u8>| check_auto_abs(c)); }
-    if ["C11", "C03", "C07", "C13"].contains(&prop) { sweep!(tlv_cases(), |c: &Vec<u8>| check_tlv(c)); }
-    if ["C07", "C09", "C10", "C13", "C20"].contains(&prop) { for (w, ops) in builder_histories() { n += 1; if let Some(m) = check_builder(w, &ops) { return (Some(m), n); } } n += 1; if let Some(m) = check_encoders() { return (Some(m), n); } }
+    let (mut v1c, mut v2c, mut tlvc): (Option<Vec<Vec<u8>>>, Option<Vec<Vec<u8>>>, Option<Vec<Vec<u8>>>) = (None, None, None);
+    for (set, f) in &checks {
+        let sets: Vec<&Vec<Vec<u8>>> = match *set {
+            "v1" => vec![&*v1c.get_or_insert_with(v1_cases)],
+            "v2" => vec![&*v2c.get_or_insert_with(v2_cases)],
+            "tlv" => vec![&*tlvc.get_or_insert_with(tlv_cases)],
+            _ => { v1c.get_or_insert_with(v1_cases); v2c.get_or_insert_with(v2_cases); vec![v1c.as_ref().unwrap(), v2c.as_ref().unwrap()] }
+        };
+        for cases in sets { for c in cases.iter() { n += 1; if let Some(m) = f(c) { if relevant(&m) { return (Some(m), n); } } } }
+    }
+    if prop == "C12" { let (m, k) = check_c12_domain(); return (m, n + k); }
+    if prop == "C16" { let (m, k) = check_c16_domain(); if m.is_some() { return (m, n + k); } n += k; }
+    if ["C07", "C13"].contains(&prop) { for c in tlv_cases() { n += 1; if let Some(m) = check_tlv(&c) { return (Some(m), n); } } }
+    if ["C07", "C09", "C10", "C13"].contains(&prop) { for (w, ops) in builder_histories() { n += 1; if let Some(m) = check_builder(w, &ops, prop) { return (Some(m), n); } } }
+    if ["C07", "C20"].contains(&prop) { n += 1; if let Some(m) = check_encoders() { return (Some(m), n); } }
+    if prop == "C07" { let (m, k) = check_c07_roundtrip(); if m.is_some() { return (m, n + k); } n += k; }
     if prop == "C19" { n += 1; if let Some(m) = check_constructors() { return (Some(m), n); } }
-    if ["C08", "C15", "C01"].contains(&prop) { n += 1; if let Some(m) = check_format() { return (Some(m), n); } }
+    if prop == "C08" { n += 1; if let Some(m) = check_format() { return (Some(m), n); } }
     (None, n)
 }
 
